@@ -416,6 +416,50 @@ func ctlRaces(c *ctx, file func() string) error {
 				}
 			}
 		}
+		if (kind == "two-copies" || kind == "three-copies") && (s/4)%2 == 1 {
+			// the counter write of one copy fails once (a busy database) while the other copies are in
+			// flight: that copy must stop - whatever the others do meanwhile, it was not accepted
+			for i := 0; i < 60 && !h.failed; i++ {
+				var adv *arrival
+				for _, a := range h.g.parked() {
+					if a.op == "AdvanceFCntUp" {
+						adv = a
+						break
+					}
+				}
+				if adv != nil {
+					sched = append(sched, "AdvanceFCntUp(fails)")
+					if err := h.stepArrival(adv, true); err != nil {
+						return err
+					}
+					c.res.Count("scenario=copies-with-failed-counter-write")
+					// the other copies go first: whatever the failed handler still does comes after them
+					for j := 0; j < 200 && !h.failed; j++ {
+						var next *arrival
+						for _, a := range h.g.parked() {
+							if a.gid != adv.gid {
+								next = a
+								break
+							}
+						}
+						if next == nil {
+							break
+						}
+						sched = append(sched, next.op)
+						if err := h.stepArrival(next, false); err != nil {
+							return err
+						}
+					}
+					break
+				}
+				if len(h.g.parked()) == 0 {
+					break
+				}
+				if err := pickStep(); err != nil {
+					return err
+				}
+			}
+		}
 		for i := 0; i < 300 && !h.failed && len(h.g.parked()) > 0; i++ {
 			if err := pickStep(); err != nil {
 				return err
@@ -470,13 +514,13 @@ func ctlRaces(c *ctx, file func() string) error {
 				}
 			}
 			full, _ := h.rig.stateText(h.euis)
-			if dups := inboxDuplicates(full, d.eui); len(dups) > 0 && c.prop == "C03" && !d.relaxed {
+			if dups := inboxDuplicates(full, d.eui); len(dups) > 0 && (c.prop == "C03" || c.prop == "C10") && !d.relaxed {
 				sig := "concurrent-copies-recorded-twice"
 				if kind == "uplink-vs-encoder" {
 					sig = "encoder-rewinds-uplink-counter"
 				}
 				h.c.res.Add(hx.Finding{Kind: "propfail", Engine: "pipectl", Signature: sig, Case: append([]pipeEvent{}, h.trace...), Impl: fmt.Sprint(dups),
-					Note: "C03: a frame of a strict-counter device is recorded twice under schedule " + strings.Join(sched, ",")})
+					Note: c.prop + ": a frame of a strict-counter device is recorded twice under schedule " + strings.Join(sched, ",")})
 			}
 			seen := map[int]string{}
 			acks := 0
@@ -513,6 +557,150 @@ func ctlRaces(c *ctx, file func() string) error {
 		if s%7 == 0 {
 			c.res.Sample(sched)
 		}
+		h.close()
+	}
+	return nil
+}
+
+// ---- C17: a join-request of a device whose data uplink is still waiting for its receive window
+
+// delayOracle: every frame handed to the gateway is timed by what it is - a join-accept five seconds
+// after the uplink, a data frame one second.
+func delayOracle(emitted string) (string, string) {
+	for _, line := range strings.Split(emitted, ";") {
+		f := strings.Fields(line)
+		if len(f) < 4 || f[0] != "E" || len(f[1]) < 2 {
+			continue
+		}
+		raw := hx.UnH(f[1])
+		if len(raw) == 0 {
+			continue
+		}
+		want := "delay=1"
+		if raw[0]>>5 == 1 {
+			want = "delay=5"
+		}
+		for _, x := range f[2:] {
+			if strings.HasPrefix(x, "delay=") && x != want {
+				return line, want
+			}
+		}
+	}
+	return "", ""
+}
+
+func ctlUplinkThenJoin(c *ctx, file func() string) error {
+	r := c.rng
+	nsched := c.pick(6, 120)
+	for s := 0; s < nsched; s++ {
+		c.res.Eval()
+		h, err := newCtlRun(c, file(), 0x21, false)
+		if err != nil {
+			return err
+		}
+		rd := &fixedReader{}
+		old := crand.Reader
+		crand.Reader = rd
+		restore := func() { crand.Reader = old }
+		d := h.abpDevice(false)
+		d.otaa = true
+		d.addr &= 0x1ffffff
+		copy(d.appKey.Key[:], r.Bytes(16))
+		if err := h.addDevice(d, 5, uint16(r.Intn(9))); err != nil {
+			restore()
+			return err
+		}
+		confirmed := s%2 == 0
+		if !confirmed {
+			if err := h.submit(d, 1+r.Intn(200), r.Bytes(1+r.Intn(20)), s%4 == 1); err != nil {
+				restore()
+				return err
+			}
+		}
+		f5, err := h.uplinkFrame(d, 5, confirmed, false, []byte{0x55, byte(s), 7})
+		if err != nil {
+			restore()
+			return err
+		}
+		fr, err := ask1(c, fmt.Sprintf("join.tx appkey=%s app=%s dev=%s nonce=%04x", hx.H(d.appKey.Key[:]), hx.H(wire(d.app)), hx.H(wire(d.eui)), 0x1000+s))
+		if err != nil {
+			restore()
+			return err
+		}
+		join := hx.UnH(strings.TrimPrefix(fr, "frame="))
+		h.g.mu.Lock()
+		h.g.enabled = true
+		h.g.mu.Unlock()
+		if err := h.inject("uplink 5", f5, nil, 0); err != nil {
+			restore()
+			return err
+		}
+		// the data uplink is handled up to the point where its answer waits for the receive window
+		var held *arrival
+		for i := 0; i < 100 && !h.failed; i++ {
+			p := h.g.parked()
+			if len(p) == 0 {
+				break
+			}
+			var next *arrival
+			for _, a := range p {
+				if a.op == "GetPHYPayloadForDevice" {
+					held = a
+				} else if next == nil {
+					next = a
+				}
+			}
+			if next == nil {
+				break
+			}
+			if err := h.stepArrival(next, false); err != nil {
+				restore()
+				return err
+			}
+		}
+		// now the device joins again: the request is honoured, its notification finds a send scheduled
+		an := []byte{byte(0x30 + s), 1, 2}
+		rd.next = append([]byte{}, an...)
+		if err := h.inject("join-request while the answer to uplink 5 is scheduled", join, an, d.addr); err != nil {
+			restore()
+			return err
+		}
+		for i := 0; i < 100 && !h.failed; i++ {
+			var next *arrival
+			for _, a := range h.g.parked() {
+				if held == nil || a.gid != held.gid {
+					next = a
+					break
+				}
+			}
+			if next == nil {
+				break
+			}
+			if next.op == "AddDevNonce" {
+				rd.next = append([]byte{}, an...)
+			}
+			if err := h.stepArrival(next, false); err != nil {
+				restore()
+				return err
+			}
+		}
+		if err := h.drain(); err != nil {
+			restore()
+			return err
+		}
+		st, err := h.compare("join while a send is scheduled")
+		restore()
+		if err != nil {
+			return err
+		}
+		if !h.failed && st != "" {
+			if line, want := delayOracle(stateSections(st)["emitted"]); line != "" {
+				h.c.res.Add(hx.Finding{Kind: "propfail", Engine: "pipectl", Signature: "rx1-delay-not-by-frame-type", Case: append([]pipeEvent{}, h.trace...), Impl: line, Spec: want,
+					Note: "C17: a frame was handed to the gateway with the receive-window delay of another kind of frame (a join-accept goes out five seconds after the uplink, a data frame one second)"})
+			}
+		}
+		c.res.Class(fmt.Sprintf("uplink-then-join conf=%v held=%v", confirmed, held != nil))
+		c.res.Count("scenario=uplink-then-join")
 		h.close()
 	}
 	return nil
